@@ -502,6 +502,16 @@ def mutate(rng, b: bytes, widen):
     for k in (1, 2, 4, 5):
         if len(b) >= k + 1:
             out.append(("dup-record", b + b[-k:]))
+    # a field value occurring a second time further back (multi-identifier / multi-record shaped answers): a parser that
+    # starts to split such an answer exposes other fields than the ISO positions of the class
+    if len(b) >= 3:
+        out.append(("dup-field", b + b[1:3] + bytes(rng.randrange(256) for _ in range(rng.randint(1, 3)))))
+        out.append(("dup-field", b + b[1:]))
+    for cut in (4, 5, 7, 8):
+        if len(b) >= cut:
+            out.append(("dup-field", b[:cut] + b[1:3] + b[cut:]))
+            if cut >= 7:
+                out.append(("dup-field", b[:cut] + b[cut - 1:cut] + b[cut:]))
     return out
 
 
@@ -576,6 +586,9 @@ def run(ctx):
         al, sl, k = rng.randint(0, 4), rng.randint(0, 4), rng.randint(0, 10)
         inputs.append(("mut:alfid-vs-length", bytes([0x7D, (sl << 4) | al]) + bytes(rng.randrange(256) for _ in range(k)), None))
         inputs.append(("mut:dddi-length", bytes([0x6C, rng.choice([1, 2, 3, 3, 3, 0x83, 4])]) + bytes(rng.randrange(256) for _ in range(rng.randint(0, 3))), None))
+        did = _u(rng, 16)
+        r1, r2 = (bytes(rng.randrange(256) for _ in range(rng.randint(1, 3))) for _ in range(2))
+        inputs.append(("mut:rdbi-multi", bytes([rng.choice([0x62, 0x62, 0x6F])]) + be(did, 2) + r1 + be(rng.choice([did, did, did ^ 1, _u(rng, 16)]), 2) + r2, None))
         inputs.append(("mut:nrc", bytes([0x7F, rng.randrange(256), rng.randrange(256)]) + bytes(rng.choice([0, 0, 0, 1])), None))
         inputs.append(("mut:dtc-format", bytes([0x59, rng.choice([1, 0x11, 0x12, 0x07]), rng.randrange(256), rng.randrange(8)]) + be(rng.randrange(65536), 2), None))
 
@@ -703,6 +716,7 @@ def run(ctx):
             by_first.setdefault(b[0], []).append((b, mv))
     cap = ctx.pick(1500, 12000)
     n_cls = 0
+    ps_neg_reported = set()
     for C in classes:
         name = C.__name__
         neg = issubclass(C, S.NegativeResponseBase)
@@ -788,7 +802,12 @@ def run(ctx):
                         found_p[r[0]] = (b, iv, m, r)
                 ctx.kind(*(["parse_static"] * len(ps)))
                 for cat, (b, iv, m, r) in found_p.items():
-                    ctx.disagree(f"parse_static:{name}:{cat}", f"{name}.parse_static({hx(b)}): {r[2]}",
+                    if b[:1] == b"\x7f":
+                        # the negative branch is the same code for every class: report it once
+                        if cat in ps_neg_reported:
+                            continue
+                        ps_neg_reported.add(cat)
+                    ctx.disagree(f"parse_static:{name if b[:1] != bytes([0x7F]) else 'negative-branch'}:{cat}", f"{name}.parse_static({hx(b)}): {r[2]}",
                                  {"pdu": hx(b), "class": name, "entry": "parse_static"}, impl=iv, model=m, spec_violated=r[1],
                                  site=f"{name}.parse_static")
         for (b, mv), iv in zip(pool, impl_cls([b for b, _ in pool])):
@@ -904,15 +923,19 @@ def _fields_classify(tab, iv, mline):
         return (f"fields:{fam}:class-not-in-table", False, f"{icls} is returned by parse_dynamic but has no row in the field table")
     if parts[1] != icls:
         return None
-    for leaf in sorted(il):
-        if leaf not in ml:
-            return (f"fields:{fam}:attribute-not-in-table:{leaf}", False, f"{icls} exposes {leaf}={il[leaf]}, which the field table does not know")
+    # values first (a container that changes its shape shows as a different `a#` / item value), then leaves the object lacks,
+    # then leaves the table does not know (a new attribute: the statement is intact on the input, the table obligation is not)
+    for leaf in sorted(ml):
+        if leaf in il and il[leaf] != ml[leaf]:
+            h, o, w = tab[icls].get(leaf, ("?", 0, 0))
+            where = f"{h} at offset {o}" if h != "len" else f"a container of {o} item(s)"
+            return (f"fields:{fam}:{leaf}", True, f"{icls}.{leaf} = {il[leaf]}, but the bytes ISO places there ({where}) hold {ml[leaf]}")
     for leaf in sorted(ml):
         if leaf not in il:
             return (f"fields:{fam}:attribute-missing:{leaf}", True, f"{icls} does not expose {leaf}; the ISO position holds {ml[leaf]}")
-        if il[leaf] != ml[leaf]:
-            h, o, w = tab[icls].get(leaf, ("?", 0, 0))
-            return (f"fields:{fam}:{leaf}", True, f"{icls}.{leaf} = {il[leaf]}, but the bytes ISO places there ({h} at offset {o}) hold {ml[leaf]}")
+    for leaf in sorted(il):
+        if leaf not in ml:
+            return (f"fields:{fam}:attribute-not-in-table:{leaf}", False, f"{icls} exposes {leaf}={il[leaf]}, which the field table does not know")
     return None
 
 
